@@ -112,11 +112,12 @@ def rule_P_FULLMATCH(ctx, floor=2):
     kw = [p_["name"] for p_ in it["params"] if p_["k"] == "Binding" and p_["name"] != "self"]
     ok = False
     body = strip(it["body"])
+    lets = hir.let_env(it["body"])
     for st_ in body["stmts"]:
         x = strip(st_.get("expr") or st_.get("init") or {"k": "?"}) if st_["k"] in ("Semi", "Expr") else None
         if x is None or x["k"] != "If":
             continue
-        c = _norm(x["cond"])
+        c = _norm(hir.through_lets(x["cond"], lets))      # named temporaries (`let n = keyword.chars().count()`) read through
         if c["k"] != "Binary" or c["op"] not in ("<", ">", "Lt", "Gt"):
             continue
         small, big = (c["l"], c["r"]) if c["op"] in ("<", "Lt") else (c["r"], c["l"])
